@@ -79,6 +79,24 @@ def loop_context_explicit_register(conn, q, arr, reg):
     return [r5]
 
 
+def loop_context_explicit_register_body_temp(conn, q, arr, reg):
+    """the caller's loop register stays live over a body that needs temporaries"""
+    r5 = Register(RegisterName.R, 5)
+    with conn.loop(3, loop_register=r5) as i:
+        arr.get_future_index(0).add(1)
+        with arr.get_future_index(1).if_eq(2):
+            q.X()
+    return [r5]
+
+
+def loop_context_explicit_register_by_name_body_temp(conn, q, arr, reg):
+    with conn.loop(3, loop_register="R5") as i:
+        arr.get_future_index(0).add(1)
+        with arr.get_future_index(1).if_eq(2):
+            q.X()
+    return [Register(RegisterName.R, 5)]
+
+
 def loop_body_callback(conn, q, arr, reg):
     conn.loop_body(lambda c, i: q.X(), stop=4)
     return []
@@ -223,6 +241,8 @@ OPS = {
     "loop context": loop_context,
     "loop context nested if": loop_context_nested_if,
     "loop context explicit register": loop_context_explicit_register,
+    "loop context explicit register, body needs temporaries": loop_context_explicit_register_body_temp,
+    "loop context explicit register given by name, body needs temporaries": loop_context_explicit_register_by_name_body_temp,
     "loop_body callback": loop_body_callback,
     "foreach": foreach,
     "enumerate + add": enumerate_add,
